@@ -501,8 +501,14 @@ func ruleMigrateRun(c *Ctx, r *Repo, cmdp *packages.Package) {
 		return
 	}
 	c.Func(funcKey(cmdp, run))
+	// run and the private helpers it may have been split into
+	inRun := func(visit func(ast.Node) bool) {
+		for _, g := range familyOf(cmdp, run) {
+			ast.Inspect(g.Body, visit)
+		}
+	}
 	var calls []string
-	ast.Inspect(run.Body, func(n ast.Node) bool {
+	inRun(func(n ast.Node) bool {
 		if call, ok := n.(*ast.CallExpr); ok {
 			if fn := calleeFunc(info, call); fn != nil && fn.Name() == "migrateConfig" && len(call.Args) == 4 {
 				calls = append(calls, typeShape(info, call.Args[2])+" -> "+typeShape(info, call.Args[3]))
@@ -515,7 +521,7 @@ func ruleMigrateRun(c *Ctx, r *Repo, cmdp *packages.Package) {
 	// stores keyed by the names ranged over
 	rangeKeyOf := func(field, holder string) types.Object { // key variable of `for k, _ := range <holder value>.<field>`
 		var out types.Object
-		ast.Inspect(run.Body, func(n ast.Node) bool {
+		inRun(func(n ast.Node) bool {
 			if rs, ok := n.(*ast.RangeStmt); ok {
 				if se, ok := ast.Unparen(rs.X).(*ast.SelectorExpr); ok && se.Sel.Name == field && typeIs(info.TypeOf(se.X), holder) {
 					if k, ok := rs.Key.(*ast.Ident); ok && k.Name != "_" {
@@ -529,7 +535,7 @@ func ruleMigrateRun(c *Ctx, r *Repo, cmdp *packages.Package) {
 	}
 	storeKeyed := func(field, holder string, key types.Object) bool {
 		found := false
-		ast.Inspect(run.Body, func(n ast.Node) bool {
+		inRun(func(n ast.Node) bool {
 			if as, ok := n.(*ast.AssignStmt); ok && len(as.Lhs) == 1 {
 				if ie, ok := as.Lhs[0].(*ast.IndexExpr); ok && key != nil && isObj(info, ie.Index, key) {
 					if se, ok := ast.Unparen(ie.X).(*ast.SelectorExpr); ok && se.Sel.Name == field && typeIs(info.TypeOf(se.X), holder) {
@@ -546,7 +552,7 @@ func ruleMigrateRun(c *Ctx, r *Repo, cmdp *packages.Package) {
 	ik := rangeKeyOf("Interfaces", "internal/cmd.V2PackageConfig")
 	c.Check(ik != nil && storeKeyed("Interfaces", "*config.PackageConfig", ik), "R19.2", "run|interface-names", r.Pos(run.Pos()), "interfaces stored under the name ranged over", "a migrated interface is not stored under exactly the interface name it was read from")
 	okAppend := false
-	ast.Inspect(run.Body, func(n ast.Node) bool {
+	inRun(func(n ast.Node) bool {
 		rs, ok := n.(*ast.RangeStmt)
 		if !ok {
 			return true
@@ -567,7 +573,7 @@ func ruleMigrateRun(c *Ctx, r *Repo, cmdp *packages.Package) {
 	})
 	c.Check(okAppend, "R19.2", "run|configs-order", r.Pos(run.Pos()), "configs entries appended in order", "configs entries are not appended one by one in their original order")
 	okRoot := false
-	ast.Inspect(run.Body, func(n ast.Node) bool {
+	inRun(func(n ast.Node) bool {
 		if as, ok := n.(*ast.AssignStmt); ok && len(as.Lhs) == 1 && len(as.Rhs) == 1 {
 			if se, ok := as.Lhs[0].(*ast.SelectorExpr); ok && se.Sel.Name == "Config" && typeIs(info.TypeOf(se.X), "config.RootConfig") && typeShape(info, as.Rhs[0]) == "*<*config.Config>" {
 				okRoot = true
@@ -583,16 +589,30 @@ func ruleMigrateRun(c *Ctx, r *Repo, cmdp *packages.Package) {
 			sites = append(sites, e)
 		}
 	}
+	// the path each open is applied to, in terms of run's own parameters (the opens may sit in private
+	// helpers: run's paths are enumerated with calls of unexported functions followed)
+	openRecv := map[token.Pos]string{}
+	{
+		d := newDT(info)
+		d.callInline = pkgUnexported(cmdp)
+		d.paths = nil
+		d.stmts(seedEnv(d, run), run.Body.List, func(p *dtPath) { d.finish(p, "end") })
+		for _, p := range d.paths {
+			for _, call := range p.CallsTo("pathlib.Path).OpenFile") {
+				openRecv[call.Pos] = call.Recv
+			}
+		}
+	}
 	nRead, nWrite := 0, 0
 	for _, e := range sites {
 		fl := "|" + e.Flags + "|"
 		switch {
 		case !e.Write && strings.HasSuffix(e.Callee, ".OpenFile"):
 			nRead++
-			c.Check(!strings.Contains(newFuncCanon(info, run).E(e.Call.Fun.(*ast.SelectorExpr).X), "ARG2"), "R19.3", "run|input-read-only", e.Pos, "the v2 file is opened O_RDONLY", "the read-only open is not on the v2 config path")
+			c.Check(openRecv[e.Call.Pos()] != "" && !strings.Contains(openRecv[e.Call.Pos()], "ARG2"), "R19.3", "run|input-read-only", e.Pos, "the v2 file is opened O_RDONLY", "the read-only open is not on the v2 config path")
 		case strings.HasSuffix(e.Callee, ".OpenFile"):
 			nWrite++
-			onOut := newFuncCanon(info, run).E(e.Call.Fun.(*ast.SelectorExpr).X) == "github.com/chigopher/pathlib.NewPath(ARG2)"
+			onOut := openRecv[e.Call.Pos()] == "github.com/chigopher/pathlib.NewPath(ARG2)"
 			c.Check(onOut && strings.Contains(fl, "|O_CREATE|") && (strings.Contains(fl, "|O_TRUNC|") || strings.Contains(fl, "|O_EXCL|")), "R19.3", "run|output-open", e.Pos, "the v3 file is opened "+e.Flags, fmt.Sprintf("the output is opened with %s on %s: without O_TRUNC a longer previous file leaves a stale tail in the result; the write must go to --outfile only", e.Flags, types.ExprString(e.Call.Fun)))
 		default:
 			c.Fail("R19.3", "run|other-mutator|"+e.Key(), e.Pos, "migrate's run calls "+e.Callee)
@@ -601,7 +621,7 @@ func ruleMigrateRun(c *Ctx, r *Repo, cmdp *packages.Package) {
 	c.Check(nRead == 1 && nWrite == 1, "R19.3", "run|opens", r.Pos(run.Pos()), "one read-only open, one output open", fmt.Sprintf("%d read-only / %d writing opens in migrate's run, want 1/1", nRead, nWrite))
 	// R19.4
 	var kf, dec token.Pos
-	ast.Inspect(run.Body, func(n ast.Node) bool {
+	inRun(func(n ast.Node) bool {
 		if call, ok := n.(*ast.CallExpr); ok {
 			switch calleeName(info, call) {
 			case "(gopkg.in/yaml.v3.Decoder).KnownFields":
@@ -617,7 +637,7 @@ func ruleMigrateRun(c *Ctx, r *Repo, cmdp *packages.Package) {
 	c.Check(kf.IsValid() && dec.IsValid() && kf < dec, "R19.4", "run|strict-decoding", r.Pos(run.Pos()), "KnownFields(true) before Decode", "the v2 file is not decoded strictly (KnownFields(true) before Decode)")
 	// R19.6: template-data keys written vs. the schema of the selected template
 	tmpl := ""
-	ast.Inspect(run.Body, func(n ast.Node) bool {
+	inRun(func(n ast.Node) bool {
 		if as, ok := n.(*ast.AssignStmt); ok && len(as.Lhs) == 1 && typeShape(info, as.Lhs[0]) == "<*config.Config>.Template" {
 			if call, ok := as.Rhs[0].(*ast.CallExpr); ok && len(call.Args) == 1 {
 				tmpl = strings.Trim(types.ExprString(call.Args[0]), `"`)
